@@ -21,6 +21,8 @@ const EXH_DOC: &str = " Exhaustive small-scope leg: for each of 6 curated hostil
 
 pub fn run(args: &Args) -> Report {
   let replay = match (args.get("sub"), args.get_u64("case")) { (Some(m), Some(c)) => Some((m.to_string(), c)), _ => None };
+  let replay_is_none = replay.is_none();
+  if matches!(&replay, Some((c, _)) if c == "file-writes") { return crate::fwrite::run(if args.property == "C06" { "C06" } else { "C05" }, args.seed); }
   let scale: u64 = (if args.tier == "thorough" { 600 } else { 20 }) * util::env_u64("PV_SCALE", 1);
   let t = args.tier.as_str();
   let s = args.seed;
@@ -75,6 +77,7 @@ pub fn run(args: &Args) -> Report {
     "C05" => {
       let mut r = wf::run_classes("C05", t, s, &[CP { name: "td-inj-hr", n: 3000 * scale }, CP { name: "td-inj-hw", n: 3000 * scale }, CP { name: "mixed-inj-hr", n: 2000 * scale }, CP { name: "mixed-inj-hw", n: 2000 * scale }, CP { name: "td-inj-any", n: 1000 * scale }, CP { name: "td-inj-rw", n: 1500 * scale }, CP { name: "mixed-inj-rw", n: 1000 * scale }], replay);
       r.rule = format!("{}Classes: a read of a generated resource without requiring its generator, or a write to a resource that other tasks read, or (inj-rw) a task that both reads and writes a source while another task reads it without requiring that task, is injected (usually conditional on a source value, so that it becomes live in a later session) at a random task and position of a well-formed program. Monitors: (online, shadow-based) a read that returns while another task has a recorded write and the reader does not reach it over recorded or in-progress requires; a write function entered (or written_to returned) while a recorded reader does not reach the writer; a hidden-dependency abort after the write function already ran; final store structure after a returning build; (Ref-based) the from-scratch interpreter hits a hidden dependency while evaluating a root for which pie returned a value. non-trivial = a distinct case with a session aborted with a hidden-dependency diagnosis.", CLASS_DOC);
+      if replay_is_none { r.merge(crate::fwrite::run("C05", s)); r.rule.push_str(" File-backed part: with pie's real PathBuf resource (opening the writer truncates the file) a task reads an existing file and another task that nobody requires then writes it through Context::write (3 x 3 sizes, one or two sessions, content or existence reader): hidden-dependency abort, and the file still holds its old bytes."); }
       r.floor("hidden-dependency aborts observed", r.get("aborts_hidden-dependency") > 50);
       r.floor("injected programs also ran without abort (legal side)", r.get("sessions") > r.get("aborts") * 2);
       r
@@ -82,6 +85,7 @@ pub fn run(args: &Args) -> Report {
     "C06" => {
       let mut r = wf::run_classes("C06", t, s, &[CP { name: "td-inj-ov", n: 4000 * scale }, CP { name: "mixed-inj-ov", n: 3000 * scale }, CP { name: "td-inj-any", n: 1000 * scale }, CP { name: "mixed-any", n: 3000 * scale }, CP { name: "pure-any", n: 2000 * scale }], replay);
       r.rule = format!("{}Classes: a second writer of a generated resource is injected (usually value-conditional) into a well-formed program; plus well-formed programs whose writers are re-executed top-down, bottom-up and through nested requires (must never be reported as overlap). Monitors: a write function entered or a written_to returned while the shadow holds a write of the resource by another task; an overlapping-write abort after the write function already ran; at most one writer per resource in the store after a returning build; Ref-based: overlap found from scratch but a value returned. non-trivial = a distinct case with a session aborted with an overlapping-write diagnosis.", CLASS_DOC);
+      if replay_is_none { r.merge(crate::fwrite::run("C06", s)); r.rule.push_str(" File-backed part: with pie's real PathBuf resource (opening the writer truncates the file) two different tasks write one file through Context::write (3 x 3 sizes, one or two sessions): overlapping-write abort, and the file still holds the first writer's bytes."); }
       r.floor("overlapping-write aborts observed", r.get("aborts_overlapping-write") > 50);
       r
     }
@@ -124,8 +128,11 @@ pub fn run(args: &Args) -> Report {
       r
     }
     "C18" => {
-      let mut r = wf::run_classes("C18", t, s, &[CP { name: "td-fc-any", n: 5000 * scale }, CP { name: "pure-fc-any", n: 5000 * scale }], replay);
+      let direct = match &replay { Some((c, n)) if c == "error-types" => Some(crate::c18x::run(t, s, Some(*n))), Some(_) => None, None => Some(crate::c18x::run(t, s, None)) };
+      let mut r = if matches!(&replay, Some((c, _)) if c == "error-types") { Report::new() } else { wf::run_classes("C18", t, s, &[CP { name: "td-fc-any", n: 5000 * scale }, CP { name: "pure-fc-any", n: 5000 * scale }], replay) };
+      if let Some(d) = direct { r.merge(d); }
       r.rule = format!("{}Fault class: checkers of chosen (owner task, resource) pairs return Err from check while armed (armed/disarmed between builds). Monitor: every injected error (unique serial) appears exactly once in Session::dependency_check_errors of that session and nothing else does; top-down: the owner is executed right after the failing check; bottom-up: the owner is scheduled and executed in that build; no abort; outputs and resources still equal Ref. evaluations = cases; non-trivial = a distinct case with a session in which at least one injected error was observed.", CLASS_DOC);
+      r.rule.push_str(" Direct part: a three-level task tree over the map resource whose equality checker fails on demand with errors of four types (a zero-sized unit struct, a message-carrying struct, a one-byte struct, std::io::Error), top-down and bottom-up: no abort, result = from-scratch formula, number of reported errors = number of errors the checkers returned, owner of a failing dependency executed.");
       r.floor("injected checker errors observed", r.nontrivial.len() > 100);
       r
     }
